@@ -99,6 +99,13 @@ CHECKS['C12'] = dict(
         'beyond one step the head/tail statement is at test strength (outside).',
    ref='3/C12')
 
+CHECKS['C01'] = dict(
+   text='PARTIAL. Inductive step: ONE real iteration of TrajectoryCalc._integrate from an arbitrary state (all reals symbolic; atmosphere, drag and wind as arbitrary recorded answers) equals the semi-implicit Euler step of the stated equations of motion - '
+        'velocity and position updates, atmosphere queried at alt0+y, drag at |v-w|/a, launch state, air advance <= step/2 - for every state (z3, polynomial identities); launch-angle mapping; N real vacuum iterations reproduce the parabola plus the exact discretisation term g*sum(dt^2)/2.',
+   note='OUTSIDE (not decidable by bounded SMT here): convergence of reported values to the exact ODE solution under step refinement and the first-order error bound at the default step - only consistency of the step (local truncation) is decided, which with stability gives convergence by a textbook theorem this machinery does not prove. '
+        'Unwind bound 1 iteration (step) / N <= 4 quick, 8 thorough (vacuum). Floats as reals. The drag law and atmosphere actually plugged in are C09/C08; wind selection is C12.',
+   ref='3/C01')
+
 NOT_YET = {}
 
 def main():
